@@ -31,12 +31,13 @@ CHECKS = {
             "Trace validation at real scale: an in-package recorder builds field elements from raw limbs (every corner pair "
             "of the admissible limb box for sub/mul, canonicalisation boundaries, one-past-nominal limbs, carry extremes of the "
             "small-constant multiplication, operation chains, seeded random limbs in the whole headroom) and runs every "
-            "internal/field operation on the amd64-assembly, portable 64-bit and 32-bit backends; TLC evaluates the F_p "
+            "internal/field operation on the amd64-assembly, portable 64-bit and 32-bit backends, and the AVX2 vector lanes "
+            "(fieldElement2625x4 operations from raw lanes, in package curve) when the CPU has AVX2; TLC evaluates the F_p "
             "specification on each event and the canonical encoding of each output. The oracle's own sqrt_ratio_i/inversion "
             "algorithms are model-checked against their declarative definitions on a complete toy field. Exhaustive over the "
             "corner families, sampled inside the box (the monotonicity argument of DESIGN.md 5/C04 explains why corners decide overflow).",
-            "Trusts TLC/SANY, CommunityModules overrides, BigNat/F25519, go test -overlay. AVX2 vector lanes are exercised through "
-            "the group-level traces of C03/C06, not limb by limb.",
+            "Trusts TLC/SANY, CommunityModules overrides, BigNat/F25519, go test -overlay. Vector-lane bit excess is taken as 1.5 (the repository "
+            "does not document the bound; dalek documents 1.5-2.5).",
             "TLA+ spec of F_p; TLC trace validation of limb-level recorded executions on three backends",
             "5/C04"),
     "C20": ("model_checking",
